@@ -327,6 +327,10 @@ def family_list(tier):
     if tier == 'thorough':
         fams += [('std-cogen-sf', F.lines(F.base(3, 51, 3, 3, (3, 2, 2)))), ('std-chiller-lhs', F.lines(F.base(1, 2, 5, 2, (3, 2, 1)))),
                  ('std-heatpump', F.lines(F.base(2, 2, 6, 4, (3, 2, 1))))]
+    # over-pressured production reservoir with a separate injection reservoir (its own depth / temperature / pressure inputs and code path)
+    fams.append(('std-overpressure', F.lines(F.override(F.base(1, 1, 2, 4, (3, 2, 1)), {
+        'Overpressure Percentage': '150', 'Overpressure Depletion Rate': '5', 'Injection Reservoir Depth': '1000', 'Injection Reservoir Inflation Rate': '10',
+        'Injection Reservoir Temperature': '90', 'Injection Reservoir Initial Pressure': '9000'}))))
     fams.append(('sbt-eavorloop', F.lines(F.sbt_base(3, 31, 1, (3, 2, 1), 5))))     # closed loop: its own length / time / diameter inputs
     from vf.checks import c07
     fams.append(('sutra', c07.file_lines(c07.ex('SUTRAExample1.txt'))))             # the SUTRA writer prints its own cost and energy tables
